@@ -83,8 +83,12 @@ def finder_fallback(pid, uname, und, scratch, spec, b=None):
     Bounded fallback, labelled as such: the unit's finder runs the real compiled code against the executable
     contract; a concrete failing input is a violation in its own right, anything else leaves the unit undecided."""
     fr = run_finder(uname, None, scratch)
-    if not (fr and fr.get("input") and pid in finder_props(fr["input"].get("why", ""), spec)):
+    if not fr:
         return None
+    mine = [f for f in (fr.get("result") or {}).get("failures", []) if pid in finder_props(f.get("why", ""), spec)]
+    if not mine:
+        return None
+    fr["input"] = dict(fr.get("input") or {}, case=mine[0]["case"], why=mine[0]["why"])
     v = {"obligation": "%s/executable-contract (bounded fallback, Verus undecided): %s" % (uname, fr["input"]["why"][:200]), "unit": uname, "fn": "-", "kind": "runtime",
          "message": "verifier undecided (%s); the real compiled code fails the executable form of the contract on a concrete input" % "; ".join(und)[:300],
          "clause": fr["input"]["why"], "at": fr["input"]["case"], "spans": [], "props": [pid]}
